@@ -212,7 +212,7 @@ def make_variants(case: Case, seed: int, anno, genome, *, per_tx=(1, 4), max_siz
 
 
 def write_gvfs(case: Case, records, layout: Optional[List[List[int]]] = None,
-               names: Optional[List[str]] = None):
+               names: Optional[List[str]] = None, circ_name: str = 'circ.gvf'):
     """Write variant records into one or more GVF files (layout = list of index
     lists into the non-circ records); circRNA records go to their own file."""
     _imports()
@@ -241,7 +241,7 @@ def write_gvfs(case: Case, records, layout: Optional[List[List[int]]] = None,
         args.command = 'parseCIRCexplorer'
         args.source = 'circRNA'
         metadata = generate_metadata(args)
-        path = case.dir / 'circ.gvf'
+        path = case.dir / circ_name
         with open(path, 'w') as handle:
             circ.io.write(circ_records, metadata, handle)
         case.gvfs.append(path)
@@ -511,6 +511,122 @@ def duplicate_isoforms(case: Case, records):
         extra.append(r2)
     case.tx_ids = case.tx_ids + [t + 'B' for t in order]
     return records + extra
+
+
+def _gtf_attr(fields8: str, key: str) -> Optional[str]:
+    for a in fields8.split(';'):
+        a = a.strip()
+        if a.startswith(key + ' '):
+            return a.split(' ', 1)[1].strip('"')
+    return None
+
+
+def noncoding_twins(case: Case, rng: random.Random, frac: float = 0.7) -> List[str]:
+    """Give some coding transcripts a NON-CODING twin: a new lncRNA gene `<gene>N` with one
+    transcript `<tx>N` on the same exons (no CDS / selenocysteine / UTR lines, not in the
+    proteome) — a processed copy / non-coding isoform that shares the start codon and ORF of
+    the coding transcript.  callNovelORF on the twin re-derives the canonical peptides of the
+    coding transcript (with and without the start methionine, with missed cleavages), all of
+    which the command has to filter.  Returns the twin transcript ids."""
+    coding = set()
+    for block in open(case.proteome).read().split('>')[1:]:
+        hdr = block.partition('\n')[0]
+        coding.add(hdr.split('|')[1])
+    lines = [ln for ln in open(case.gtf).read().split('\n') if ln and not ln.startswith('#')]
+    by_tx: Dict[str, List[str]] = {}
+    order = []
+    for ln in lines:
+        f = ln.split('\t')
+        if f[2] not in ('transcript', 'exon'):
+            continue
+        tx = _gtf_attr(f[8], 'transcript_id')
+        if tx not in by_tx:
+            by_tx[tx] = []
+            order.append(tx)
+        by_tx[tx].append(ln)
+    twins, new_lines = [], []
+    cands = [tx for tx in order if tx in coding and not tx.endswith('N')]
+    chosen = [tx for tx in cands if rng.random() < frac]
+    if cands and not chosen:
+        chosen = [rng.choice(cands)]
+    for tx in chosen:
+        tl = [ln for ln in by_tx[tx] if ln.split('\t')[2] == 'transcript']
+        if len(tl) != 1:
+            continue
+        gene = _gtf_attr(tl[0].split('\t')[8], 'gene_id')
+        pid = _gtf_attr(tl[0].split('\t')[8], 'protein_id')
+
+        def conv(ln, feature=None):
+            f = ln.split('\t')
+            if feature:
+                f[2] = feature
+            a = f[8].replace(tx, tx + 'N').replace(gene, gene + 'N')
+            if pid:
+                a = a.replace(pid, pid + 'N')
+            a = a.replace('gene_type protein_coding', 'gene_type lncRNA')
+            a = a.replace('is_protein_coding true', 'is_protein_coding false')
+            a = a.replace(' tag cds_start_NF;', '').replace(' tag mRNA_end_NF;', '')
+            f[8] = a
+            return '\t'.join(f)
+        new_lines.append(conv(tl[0], 'gene'))
+        new_lines += [conv(ln) for ln in by_tx[tx]]
+        twins.append(tx + 'N')
+    if twins:
+        with open(case.gtf, 'wt') as fh:
+            fh.write('\n'.join(lines + new_lines) + '\n')
+        case.tx_ids = case.tx_ids + twins
+        case.meta['noncoding_twins'] = twins
+    return twins
+
+
+INVALID_KINDS = ('beyond-gene-end', 'other-gene', 'unknown-gene')
+
+
+def invalid_record(anno, tx_id: str, kind: str, rng: random.Random):
+    """A record of transcript `tx_id` that makes the variant series of that transcript INVALID:
+    `VariantRecordPoolOnDisk.__getitem__` raises ValueError when it places the record on the
+    transcript.  kinds: gene position behind the end of the gene (= outside the transcript),
+    gene coordinates of ANOTHER gene (transcript not associated with the gene), unknown gene."""
+    _imports()
+    from moPepGen.seqvar.VariantRecord import VariantRecord
+    from moPepGen.SeqFeature import FeatureLocation
+    tx_model = anno.transcripts[tx_id]
+    gene_id = tx_model.transcript.gene_id
+    glen = len(anno.genes[gene_id].location)
+    if kind == 'beyond-gene-end':
+        seqname, start = gene_id, glen + rng.choice([0, 0, 1, 7, 100])
+    elif kind == 'other-gene':
+        others = [g for g in anno.genes.keys() if g != gene_id]
+        if not others:
+            return None
+        seqname = rng.choice(sorted(others))
+        start = rng.randrange(max(1, len(anno.genes[seqname].location)))
+    elif kind == 'unknown-gene':
+        seqname, start = 'FAKEG99999999', rng.randrange(glen)
+    else:
+        raise KeyError(kind)
+    ref = rng.choice('ACGT')
+    alt = rng.choice([c for c in 'ACGT' if c != ref])
+    chrom = tx_model.transcript.chrom
+    return VariantRecord(
+        location=FeatureLocation(start=start, end=start + 1, seqname=seqname),
+        ref=ref, alt=alt, _type='SNV', _id=f'{seqname}-{start}-{ref}-{alt}',
+        attrs={'TRANSCRIPT_ID': tx_id, 'GENOMIC_POSITION': f'{chrom}-{start}:{start + 1}',
+               'GENE_SYMBOL': 'BAD'})
+
+
+def write_extra_gvf(case: Case, records, name: str, source: str = 'bad') -> Path:
+    """one more small-variant GVF file next to the case's files (case.gvfs is left alone)"""
+    _imports()
+    from moPepGen import seqvar
+    from moPepGen.cli.common import generate_metadata
+    args = argparse.Namespace()
+    args.index_dir = None
+    args.command = 'parseVEP'
+    args.source = source
+    path = case.dir / name
+    seqvar.io.write(sorted(records), path, generate_metadata(args))
+    return path
 
 
 def small_variant(anno, genome, tx_id: str, tx_pos: int, kind: str, size: int,
